@@ -364,7 +364,11 @@ class Emitter:
 def _clause_lines(raw, fn_name, default_props, kind, counter):
     """strip `[props label]` prefixes; returns list of (text, meta or None)"""
     out = []
+    mode = None
     for line in raw:
+        kw = re.match(r'^\s*(requires|ensures|invariant_except_break|invariant|decreases|recommends)\b', line)
+        if kw:
+            mode = kw.group(1)
         m = LABEL_RE.match(line)
         if m and not m.group(3).startswith('@'):
             inside = m.group(2).strip()
@@ -378,13 +382,13 @@ def _clause_lines(raw, fn_name, default_props, kind, counter):
                 label = toks[0]
             else:
                 raise GenError('bad clause label [%s]' % inside)
-            out.append((m.group(1) + m.group(3), dict(fn=fn_name, label=label, props=props, kind=kind, text=m.group(3).strip())))
+            out.append((m.group(1) + m.group(3), dict(fn=fn_name, label=label, props=props, kind=kind, clause_kind=mode, text=m.group(3).strip())))
         else:
             s = line.strip()
             if s and not s.startswith('//') and s not in ('requires', 'ensures', 'invariant', 'decreases', 'invariant_except_break', 'ensures') \
                     and not re.match(r'^(requires|ensures|invariant|decreases|invariant_except_break|no_unwind)\s*$', s):
                 counter[0] += 1
-                out.append((line, dict(fn=fn_name, label='%s%d' % (kind, counter[0]), props=default_props, kind=kind, text=s, auto=True)))
+                out.append((line, dict(fn=fn_name, label='%s%d' % (kind, counter[0]), props=default_props, kind=kind, clause_kind=mode, text=s, auto=True)))
             else:
                 out.append((line, None))
     return out
